@@ -2490,7 +2490,8 @@ hsStateDetermined:
 /*
                 Verify the fragment belongs within fragMessage.
 */
-                if (fragOffset + fragLen > hsLen ||
+                if ((uint32) (end - c) < fragLen ||
+                    fragOffset + fragLen > hsLen ||
                     fragOffset + fragLen > ssl->fragLenStored)
                 {
                     /* Fragment outside proper area. */
